@@ -261,7 +261,13 @@ def run(ctx: Ctx):
             if wk["KA"] == "oob" or wk["uv"] == "oob" or wk["s"] == "oob":
                 diffs.append(("model reads outside the arrays", wk, None))
             else:
-                if rec["K"][k] != wk["KA"][0] or not close(rec["A"][k], parse_rat(wk["KA"][1]), rel=1e-9, abs_=1e-12):
+                # a depth within rounding of an s-level: the level's depth is a float in the implementation and a rational in the
+                # model, so the two may put the particle on different sides of it — (K, 0) and (K+1, 1) are the same place for the
+                # (continuous) velocities, while the cell value of a scalar jumps there and is decided by that rounding
+                on_level = rec["K"][k] != wk["KA"][0] and abs((rec["K"][k] - rec["A"][k]) - (wk["KA"][0] - float(parse_rat(wk["KA"][1])))) < 1e-9
+                if on_level:
+                    ctx.count("depth-on-a-level:sides-differ")
+                elif rec["K"][k] != wk["KA"][0] or not close(rec["A"][k], parse_rat(wk["KA"][1]), rel=1e-9, abs_=1e-12):
                     diffs.append(("K,A", [rec["K"][k], rec["A"][k]], [wk["KA"][0], float(parse_rat(wk["KA"][1]))]))
                 mu, mv = float(parse_rat(wk["uv"][0])), float(parse_rat(wk["uv"][1]))
                 if not (close(rec["u"][k], mu, rel=1e-9, abs_=1e-9) and close(rec["v"][k], mv, rel=1e-9, abs_=1e-9)):
@@ -269,7 +275,7 @@ def run(ctx: Ctx):
                 m2u, m2v = float(parse_rat(W2[k]["uv"][0])), float(parse_rat(W2[k]["uv"][1])) if W2[k]["uv"] != "oob" else (None, None)
                 if W2[k]["uv"] != "oob" and not (close(rec["u2"][k], m2u, rel=1e-9, abs_=1e-9) and close(rec["v2"][k], m2v, rel=1e-9, abs_=1e-9)):
                     diffs.append(("velocity at a stage position", [rec["u2"][k], rec["v2"][k]], [m2u, m2v]))
-                if rec["temp"][k] != float(parse_rat(wk["s"])):
+                if not on_level and rec["temp"][k] != float(parse_rat(wk["s"])):
                     diffs.append(("scalar", rec["temp"][k], float(parse_rat(wk["s"]))))
                 if rec["metric"][k] != float(parse_rat(wk["metric"])) or rec["depth"][k] != float(parse_rat(wk["depth"])) or rec["atsea"][k] != wk["atsea"] or rec["ingrid"][k] != wk["ingrid"]:
                     diffs.append(("metric/depth/atsea/ingrid", [rec["metric"][k], rec["depth"][k], rec["atsea"][k], rec["ingrid"][k]],
